@@ -553,3 +553,46 @@ def rule_bitsem(prog, res, rule="B-sem", which=("put", "parse")):
 def _line_of(text):
     m = re.search(r"\(line (\d+)\)", text)
     return int(m.group(1)) if m else None
+
+
+# ------------------------------------------------------------------ S-sem: value mapping of the 15 carriers (signsem.py)
+_SIGNSEM = {}
+
+
+def rule_signsem(prog, res, rule="S-sem"):
+    """sign_fix / sign_fix_rev of every BitValue impl, every width 1..=BITS, against the unsigned / two's-complement /
+    sign-magnitude specification (abstract interpretation, see signsem.py)."""
+    import signsem
+    k = id(prog)
+    if k not in _SIGNSEM:
+        _SIGNSEM[k] = signsem.check(prog)
+    o = _SIGNSEM[k]
+    res.ob(rule, "carriers | 15 impls x {sign_fix, sign_fix_rev} found", o["impls"] == 30, "found %d" % o["impls"], None)
+    bad = {}
+    for f, t in o["problems"]:
+        bad.setdefault(f, []).append(t)
+    und = {}
+    for f, t in o["undecided"]:
+        und.setdefault(f, []).append(t)
+    n = 0
+    for p in sorted(prog.fns):
+        m = signsem.IMPL.fullmatch(p)
+        if not m:
+            continue
+        if m.group(3) in ("u8_cast", "val_cast"):
+            f = prog.fns[p]
+            res.fn(f)
+            probs = bad.get(p, []) + ["undecided: " + u for u in und.get(p, [])]
+            res.ob(rule, "%s%s::%s | %s" % (m.group(1), m.group(2), m.group(3), "keeps the low 8 bits" if m.group(3) == "val_cast" else "zero-extends the byte"),
+                   not probs, "; ".join(probs)[:300], f.loc)
+            continue
+        n += 1
+        f = prog.fns[p]
+        res.fn(f)
+        kind = {"U": "unsigned: identity", "I": "two's complement: sign extension from bit len-1 on read, low len bits on write",
+                "SM": "sign-magnitude: sign bit len-1 and magnitude = |value|"}[m.group(1)]
+        probs = bad.get(p, []) + ["undecided: " + u for u in und.get(p, [])]
+        res.ob(rule, "%s%s::%s | %s, for every width 1..=%s" % (m.group(1), m.group(2), m.group(3), kind, m.group(2)), not probs,
+               "; ".join(probs)[:500] if probs else "holds in all %s width partitions" % m.group(2), f.loc,
+               sample={"function": p, "partitions": int(m.group(2))} if n <= 2 else None)
+    res.extra["signsem"] = {"partitions": o["partitions"], "paths": o["paths"]}
